@@ -87,6 +87,11 @@ func GenConcurrent(t *testing.T, r *rand.Rand, prop, tier string, _ *atomic.Int6
 		c.Ops = append(c.Ops, op)
 	}
 	if RaceMode {
+		for i := range c.Ops {
+			if r.Intn(4) == 0 {
+				c.Ops[i].Faults = []store.Fault{{Kind: []string{"err", "panic", "cancel"}[r.Intn(3)], At: 1 + r.Intn(80)}}
+			}
+		}
 		c.Scen = "race"
 		c.Var = map[string]any{"repeat": 1 + r.Intn(3)}
 	}
@@ -124,6 +129,11 @@ func compareSolo(x *X, i int, op Op, o, solo *Outcome, data []store.Series) {
 	if op.ClientCancelStep > 0 && o.Canceled {
 		x.Probe("client-cancelled")
 		return // its own cancellation; the other clients are compared as usual
+	}
+	if o.Acct != nil && len(o.Acct.Fired) > 0 {
+		x.Probe("client-faulted")
+		x.Fire(o.Acct.Fired)
+		return // its own storage fault
 	}
 	if o.Created != solo.Created || (o.Err != "") != (solo.Err != "") {
 		x.Viol("C12", "isolation", "outcome-differs|"+Shape(op.Q), fmt.Sprintf("%s: concurrently %s, alone %s", desc, o.Brief(), solo.Brief()))
@@ -204,8 +214,11 @@ func raceMain(x *X) {
 	defer sched.SetFreeRunning(0)
 	runtime.GOMAXPROCS(8)
 	repeat := 1
-	if v, ok := c.Var["repeat"].(float64); ok {
+	switch v := c.Var["repeat"].(type) {
+	case float64:
 		repeat = int(v)
+	case int:
+		repeat = v
 	}
 	solos := map[string]*Outcome{}
 	for _, op := range c.Ops {
@@ -214,7 +227,7 @@ func raceMain(x *X) {
 			continue
 		}
 		op.Shards = 0
-		op.ClientCancelStep, op.ClientClose = 0, false
+		op.ClientCancelStep, op.ClientClose, op.Faults = 0, false, nil
 		st, eng, _ := buildEngine(c, op, c.Store)
 		solos[k] = RunQuery(QueryRun{Op: op, Eng: eng, Store: st})
 	}
@@ -229,6 +242,15 @@ func raceMain(x *X) {
 			op := c.Ops[i]
 			op.Shards = 0 // GOMAXPROCS is process-wide; leave it alone
 			for k := 0; k < repeat; k++ {
+				if len(op.Faults) > 0 && !op.Eng.Distributed {
+					// the error, panic and cancellation paths under the race detector: this
+					// client reads the same data through a storage of its own that carries
+					// its fault plan; the engine is the shared one
+					fst := store.New(c.Data, c.Store, false)
+					outs[i] = RunQuery(QueryRun{Op: op, Eng: eng, Store: fst, Acct: fst})
+					continue
+				}
+				op.Faults = nil
 				outs[i] = RunQuery(QueryRun{Op: op, Eng: eng, Store: st})
 			}
 		}()
@@ -248,10 +270,15 @@ func raceMain(x *X) {
 	}
 	// data races reported by the detector while this case ran
 	if rep := newRaceReports(); rep != "" {
-		fr := raceFrame(rep)
-		if fr != "" {
+		fr, harness := raceFrame(rep)
+		switch {
+		case harness:
+			// one of the two accesses is the harness's own code: not the engine's race
+			x.Probe("race-in-harness")
+			fmt.Fprintln(os.Stderr, "race in the harness:", compactRace(rep))
+		case fr != "":
 			x.Viol("C12", "data-race", "data-race|"+fr, "race detector: "+compactRace(rep))
-		} else {
+		default:
 			x.Probe("race-outside-repo")
 		}
 	}
@@ -275,8 +302,12 @@ func newRaceReports() string {
 	return s
 }
 
-// raceFrame returns the first frame of the report that lies in the engine (/repo), "" if none.
-func raceFrame(rep string) string {
+// raceFrame attributes a report: for each of the two access stacks, the first frame below the Go
+// runtime and standard library decides - a frame of the engine (/repo or the instrumented copy)
+// names the engine function, a frame of a dependency is skipped (who called it decides), a frame of
+// this harness means the race is the harness's own. Returns the engine function ("" if none) and
+// whether the harness is to blame.
+func raceFrame(rep string) (string, bool) {
 	// only the two access stacks count, not the "Goroutine N created at" sections
 	var acc []string
 	for _, sec := range strings.Split(rep, "\n\n") {
@@ -288,20 +319,33 @@ func raceFrame(rep string) string {
 			acc = append(acc, t)
 		}
 	}
-	lines := strings.Split(strings.Join(acc, "\n"), "\n")
-	for i, l := range lines {
-		if strings.Contains(l, "/repo/") && !strings.Contains(l, "/verifhook/") && i > 0 {
-			fn := strings.TrimSpace(lines[i-1])
-			if j := strings.LastIndex(fn, "/"); j >= 0 {
-				fn = fn[j+1:]
+	engine, harness := "", false
+	for _, a := range acc {
+		lines := strings.Split(a, "\n")
+		for i := 1; i+1 < len(lines); i += 2 {
+			fn, file := strings.TrimSpace(lines[i]), strings.TrimSpace(lines[i+1])
+			switch {
+			case strings.Contains(file, "/verif/sim/") || strings.HasPrefix(fn, "verifsim/"):
+				harness = true
+			case strings.Contains(file, "/verifhook/"):
+				continue
+			case strings.Contains(file, "/repo/"):
+				if engine == "" {
+					if j := strings.LastIndex(fn, "/"); j >= 0 {
+						fn = fn[j+1:]
+					}
+					if j := strings.Index(fn, "("); j > 0 {
+						fn = fn[:j]
+					}
+					engine = fn
+				}
+			default:
+				continue // runtime, standard library, dependency: the caller decides
 			}
-			if j := strings.Index(fn, "("); j > 0 {
-				fn = fn[:j]
-			}
-			return fn
+			break
 		}
 	}
-	return ""
+	return engine, harness
 }
 
 func compactRace(rep string) string {
